@@ -160,3 +160,16 @@ def jac_values(model, prog):
         for (k, i), M in jac.items():
             out[f"{o['name']}:{k}:{i}"] = cex_values(model, M=M)["M"]
     return out
+
+
+ORDINARY = (ValueError, RuntimeError, TypeError, IndexError, KeyError, ZeroDivisionError, AttributeError)
+
+
+def valid_call(fn, cex, name="call_on_valid_arguments_succeeds"):
+    """run fn() - a call whose arguments are valid for the property.  An ordinary exception is not an error of the harness but a failed obligation
+    (the replay re-executes the scenario on the real stack; see replay/real.py: `raised`).  Returns (result, None) or (None, [Ob])."""
+    try:
+        return fn(), None
+    except ORDINARY as e:
+        msg = f"{type(e).__name__}: {e}"[:300]
+        return None, [Ob(name, False, lambda model=None: dict(cex(model), raised=msg))]
